@@ -44,7 +44,7 @@ def draw_knobs(rng, cfg):
     k["p_gil"] = rng.choice([0.3, 0.6, 0.9])
     k["repeat_rate"] = rng.choice([0.0, 0.1, 0.25])
     k["fine_m2"] = rng.random() < 0.45
-    k["ctor_storm"] = rng.random() < 0.2
+    k["ctor_storm"] = rng.random() < 0.25
     return k
 
 
@@ -90,8 +90,8 @@ def _thread_op(rng, at, knobs, shared, own, operator, all_ops=None, me=None, slo
         # call misses the string-keyed LRUs) whose hosts, users and ports come from the same tiny pools
         # (so the netloc-, host- and IDNA-keyed helpers and anything "remembering the last one" collide)
         if rng.random() < 0.8:
-            s_ = at.compose(rng)
-            if rng.random() < 0.3:
+            s_ = at.storm_string(rng) if rng.random() < 0.5 else at.compose(rng)
+            if rng.random() < 0.2:
                 s_ = at.mutate_text(rng, s_)
             op = {"op": "new", "args": [s_], "kwargs": {}}
         else:
